@@ -5,8 +5,9 @@
     or the mirrored `ct_gt(modulus, candidate)`), or forwards its modulus to a function that does.
 (b) bit-length guard: every `try_random_bits_with_precision` owns a rejecting branch that depends on `bit_length`
     (and one on `bits_precision` where the type has a fixed width), or forwards both to a function that does.
-(c) stream agreement: the fixed-width and boxed implementations of one sampling method hand the RNG to the same
-    core routine(s), so they consume the stream identically.
+(Stream agreement between the fixed and boxed samplers is *not* checked: "both call the same core routine" is not a
+necessary condition of identical stream consumption — an inlined copy would behave the same — so a rule on it would
+fire on behaviour-preserving edits. `run_c` is kept as an informational report only.)
 
 None of this decides the values drawn (masks, uniformity, which bytes are requested).
 """
@@ -136,6 +137,21 @@ def own_guard(view, pmod):
     return None, best
 
 
+def _some_dominating_modulus_branch(eng, bid, pm):
+    view = eng.view(bid)
+    oks = _ok_blocks(view)
+    summ, evs = eng.analyze(bid, collect=True)
+    for e in evs:
+        if e.kind != "branch" or e.via:
+            continue
+        if not any(l == "@%d" % pm or l.startswith("@%d." % pm) for l in e.labels):
+            continue
+        bi = e.bb[0]
+        if oks and all(ok not in view._reach_avoiding(0, bi) and ok != bi for ok in oks):
+            return True
+    return False
+
+
 def run_a(facts, eng, report, config):
     samplers = {}
     for b in facts.fn_bodies():
@@ -175,6 +191,11 @@ def run_a(facts, eng, report, config):
                 fwd = mir.callee_decl(t) + " (trait dispatch; every impl is an instance of this rule)"
         if fwd:
             report.add(Instance(key, "c19.reject", "ok", "auto: forwards its modulus to the sampler %s, which is judged on its own" % fwd,
+                                b["span"], {"body": bid}), config)
+        elif why.startswith("no branch on") and _some_dominating_modulus_branch(eng, bid, pm):
+            # a guard in an idiom the comparison chase does not know (e.g. through Ordering or CtOption): do not guess
+            report.add(Instance(key, "c19.reject", "info", "a branch depending on the modulus dominates every successful "
+                                "return, but it is not a recognised `candidate < modulus` comparison: not judged",
                                 b["span"], {"body": bid}), config)
         else:
             report.add(Instance(key, "c19.reject", "violation",
@@ -319,4 +340,3 @@ def run(facts, report, config):
     eng.run_all(collect=False)
     run_a(facts, eng, report, config)
     run_b(facts, eng, report, config)
-    run_c(facts, eng, report, config)
